@@ -3,7 +3,7 @@ import Rangers.Proofs.MinerLookup
 namespace Rangers.Miner
 
 /-- Decoding an encoded record gives back its id (assumed of `encoding/json`). -/
-def CodecId (cfg : Cfg) : Prop := ∀ i j, cfg.dec (cfg.enc i) = some j → j.id = i.id
+def CodecId (cfg : Cfg) : Prop := ∀ i j, i.typ < 256 → cfg.dec (cfg.enc i) = some j → j.id = i.id ∧ j.typ = i.typ
 /-- The raw slot values (8-byte stake, 1-byte status) are not records. -/
 def RawOK (cfg : Cfg) : Prop := (∀ n, cfg.dec (u64be n) = none) ∧ (∀ b : UInt8, cfg.dec [b] = none)
 
@@ -17,17 +17,18 @@ theorem recKeyed_of_live (cfg : Cfg) (st st' : State) (h : st'.live = st.live) (
   intro d k info; rw [h]; exact hr d k info
 
 theorem recKeyed_write (cfg : Cfg) (st : State) (d : DbId) (k v : Bytes) (hr : RecKeyed cfg st)
-    (hv : ∀ info, v ≠ [] → cfg.dec v = some info → info.id = k ∧ k ≠ []) : RecKeyed cfg (st.write d k v) := by
+    (hv : ∀ info, v ≠ [] → cfg.dec v = some info → info.id = k ∧ k ≠ [] ∧ dbOfType info.typ = d) : RecKeyed cfg (st.write d k v) := by
   intro d' q info hne hdec
   rw [write_get] at hne hdec
   by_cases hc : d' = d ∧ q = k
   · simp only [hc, and_self, if_true] at hne hdec
-    rw [hc.2]; exact hv info hne hdec
+    rw [hc.2, hc.1]; exact hv info hne hdec
   · simp only [hc, if_false] at hne hdec
     exact hr d' q info hne hdec
 
 theorem recKeyed_updateMiner_none (cfg : Cfg) (st : State) (m : Miner) (hraw : RawOK cfg) (hr : RecKeyed cfg st)
-    (hacc : ∀ info, m.account ≠ [] → cfg.dec m.account = some info → info.id = slotAcct cfg m.id ∧ slotAcct cfg m.id ≠ []) :
+    (hacc : ∀ info, m.account ≠ [] → cfg.dec m.account = some info →
+      info.id = slotAcct cfg m.id ∧ slotAcct cfg m.id ≠ [] ∧ dbOfType info.typ = dbOfType m.typ) :
     RecKeyed cfg (updateMiner cfg st m none) := by
   unfold updateMiner
   apply recKeyed_write
@@ -53,7 +54,7 @@ theorem recKeyed_removeMiner (cfg : Cfg) (st : State) (id acc : Bytes) (t l : Na
 theorem isEmptySlice_nil : isEmptySlice [] = true := rfl
 
 theorem recKeyed_addMinerApply (cfg : Cfg) (st : State) (p : Bytes) (info : Info) (s : Nat) (a : Bytes)
-    (hc : CodecId cfg) (hraw : RawOK cfg) (hr : RecKeyed cfg st) (hid : info.id ≠ []) (ha : cfg.dec a = none) :
+    (hc : CodecId cfg) (hraw : RawOK cfg) (hr : RecKeyed cfg st) (hid : info.id ≠ []) (ht : info.typ < 256) (ha : cfg.dec a = none) :
     RecKeyed cfg (addMinerApply cfg st p info s a) := by
   unfold addMinerApply updateMiner
   apply recKeyed_write
@@ -61,7 +62,9 @@ theorem recKeyed_addMinerApply (cfg : Cfg) (st : State) (p : Bytes) (info : Info
     · apply recKeyed_write
       · apply recKeyed_write
         · exact recKeyed_of_live cfg st _ rfl hr
-        · intro j _ h; exact ⟨hc info j h, hid⟩
+        · intro j _ h
+          obtain ⟨h1, h2⟩ := hc info j ht h
+          exact ⟨h1, hid, by rw [h2]⟩
       · intro info _ h; rw [hraw.1] at h; cases h
     · intro j _ h; rw [ha] at h; cases h
   · intro info _ h; rw [hraw.2] at h; cases h
@@ -69,14 +72,16 @@ theorem recKeyed_addMinerApply (cfg : Cfg) (st : State) (p : Bytes) (info : Info
 /-- What `GetMiner` returns in a `RecKeyed` state: the record named `id`, its account read from `id`'s slot. -/
 theorem getMiner_some (cfg : Cfg) (st : State) (id : Bytes) (m : Miner) (hr : RecKeyed cfg st) (h : getMiner cfg st id = some m) :
     ∃ d, (d = .prop ∨ d = .val) ∧ getMinerById cfg st d id = some m ∧ m.id = id ∧ id ≠ [] ∧
-      m.account = (st.live d).get (slotAcct cfg id) ∧ m.stake = u64 ((st.live d).get (slotStake cfg id)) := by
+      m.account = (st.live d).get (slotAcct cfg id) ∧ m.stake = u64 ((st.live d).get (slotStake cfg id)) ∧
+      dbOfType m.typ = d := by
   unfold getMiner at h
   have key : ∀ d, getMinerById cfg st d id = some m → m.id = id ∧ id ≠ [] ∧
-      m.account = (st.live d).get (slotAcct cfg id) ∧ m.stake = u64 ((st.live d).get (slotStake cfg id)) := by
+      m.account = (st.live d).get (slotAcct cfg id) ∧ m.stake = u64 ((st.live d).get (slotStake cfg id)) ∧
+      dbOfType m.typ = d := by
     intro d hd
     obtain ⟨hv, info, hdec, rfl⟩ := (getMinerById_some cfg st d id m).mp hd
-    obtain ⟨h1, h2⟩ := hr d id info hv hdec
-    exact ⟨by simp [readMiner, h1], h2, by simp [readMiner], by simp [readMiner]⟩
+    obtain ⟨h1, h2, h3⟩ := hr d id info hv hdec
+    exact ⟨by simp [readMiner, h1], h2, by simp [readMiner], by simp [readMiner], by simpa [readMiner] using h3⟩
   cases hp : getMinerById cfg st .prop id with
   | some m' =>
     rw [hp] at h
@@ -88,10 +93,11 @@ theorem getMiner_some (cfg : Cfg) (st : State) (id : Bytes) (m : Miner) (hr : Re
     exact ⟨.val, Or.inr rfl, h, key _ h⟩
 
 theorem acct_cond (cfg : Cfg) (st : State) (id : Bytes) (m : Miner) (hr : RecKeyed cfg st) (h : getMiner cfg st id = some m) :
-    ∀ info, m.account ≠ [] → cfg.dec m.account = some info → info.id = slotAcct cfg m.id ∧ slotAcct cfg m.id ≠ [] := by
-  obtain ⟨d, _, _, hid, _, hacc, _⟩ := getMiner_some cfg st id m hr h
+    ∀ info, m.account ≠ [] → cfg.dec m.account = some info →
+      info.id = slotAcct cfg m.id ∧ slotAcct cfg m.id ≠ [] ∧ dbOfType info.typ = dbOfType m.typ := by
+  obtain ⟨d, _, _, hid, _, hacc, _, hdb⟩ := getMiner_some cfg st id m hr h
   intro info hne hdec
-  rw [hid]
+  rw [hid, hdb]
   rw [hacc] at hne hdec
   exact hr d _ info hne hdec
 
@@ -113,6 +119,7 @@ theorem recKeyed_execute (cfg : Cfg) (st : State) (tx : Tx) (hc : CodecId cfg) (
             | exact hr
             | (apply recKeyed_addMinerApply _ _ _ _ _ _ hc hraw hr
                · intro h; apply hne; have h' : id = [] := h; subst h'; rfl
+               · show t < 256; omega
                · first | exact hok.1 | exact hok.2)
   | add src id dl =>
     simp only [execute, execAdd]
